@@ -283,7 +283,8 @@ def label_set_sessions(path, image, answers, base, visited, w, cmds, probe, pnam
     from flipjump.utils.functions import save_debugging_labels
     from fjv.enginecheck import scratch
     from fjv.asm import quiet
-    table = {'lab_b': visited[0], 'main.lab_c': visited[min(1, len(visited) - 1)], 'lab_a': visited[min(2, len(visited) - 1)], 'never': max(visited) + 4 * w}
+    table = {'lab_b': visited[0], 'main.lab_c': visited[min(1, len(visited) - 1)], 'lab_a': visited[min(2, len(visited) - 1)], 'never': max(visited) + 4 * w,
+             'f1:l3:m(1)---x': visited[min(3, len(visited) - 1)], 'f1:l4:mx1)---y': max(visited) + 6 * w}
     dbg = scratch() / f'c15-{w}-labels.fjd'
     save_debugging_labels(dbg, table)
     names = ['lab_a', 'lab_b', 'main.lab_c', 'Lab_a', 'lab_', 'zz_none']
@@ -305,6 +306,31 @@ def label_set_sessions(path, image, answers, base, visited, w, cmds, probe, pnam
                                         'script': [cmds[c][0] for c in script]},
                                'expected': {'pauses': exp['pauses']}, 'observed': {'pauses': obs['pauses'], 'exception': obs['exc']}, 'ref_trace': base.steps,
                                'summary': f'w={w} {pname} labels asked={list(sub)} (table {table}): pauses {obs["pauses"]} instead of {exp["pauses"]}'})
+
+    # breakpoints asked for by SUBSTRING (literal text, also text with characters that mean something in a regular expression)
+    subs = ['lab_', 'main.', 'm(1)', 'm.1', ')---', '(', 'zz_none', 'x1)']
+    for r in (1, 2):
+        for sub in itertools.combinations(subs, r):
+            want = {a for nm, a in table.items() if any(x in nm for x in sub)}
+            for script in ((), (cont,) * 6):
+                try:
+                    with quiet():
+                        handler = get_breakpoint_handler(dbg, None, None, set(sub))
+                except Exception as e:  # noqa
+                    sieve.add({'kind': 'breakpoints asked for by substring: building the handler failed', 'class': 'substring set',
+                               'case': {'w': w, 'program': pname, 'label_table': table, 'substrings_asked': list(sub)}, 'expected': 'a handler',
+                               'observed': f'{type(e).__name__}: {e}', 'summary': f'w={w} substrings {list(sub)}: {type(e).__name__}'})
+                    break
+                exp = model_session(image, answers, base, want, script, w, cmds)
+                obs = run_session(path, image, answers, want, script, w, cmds, DEVICE, probe, handler=handler)
+                stats['sessions'] += 1
+                stats['label_set_sessions'] = stats.get('label_set_sessions', 0) + 1
+                if obs['exc'] or obs['pauses'] != exp['pauses']:
+                    sieve.add({'kind': 'breakpoints asked for by substring: the debugger does not stop exactly at the matching labels', 'class': 'substring set',
+                               'case': {'w': w, 'program': pname, 'image': image.to_json(), 'answers': answers, 'label_table': table, 'substrings_asked': list(sub),
+                                        'script': [cmds[c][0] for c in script]},
+                               'expected': {'pauses': exp['pauses']}, 'observed': {'pauses': obs['pauses'], 'exception': obs['exc']}, 'ref_trace': base.steps,
+                               'summary': f'w={w} {pname} substrings asked={list(sub)}: pauses {obs["pauses"]} instead of {exp["pauses"]}'})
 
 
 DEVICE = None
@@ -343,6 +369,17 @@ def replay(args):
     base = R1.run(image, c['answers'], H)
     cmds = commands(w, image)
     handler = None
+    if 'substrings_asked' in c:
+        from flipjump.interpreter.debugging.breakpoints import get_breakpoint_handler
+        from flipjump.utils.functions import save_debugging_labels
+        from fjv.enginecheck import scratch
+        from fjv.asm import quiet
+        dbg = scratch() / 'replay.fjd'
+        save_debugging_labels(dbg, c['label_table'])
+        with quiet():
+            handler = get_breakpoint_handler(dbg, None, None, set(c['substrings_asked']))
+        c['breakpoints'] = [a for nm, a in c['label_table'].items() if any(x in nm for x in c['substrings_asked'])]
+        c['script_idx'] = [[x[0] for x in cmds].index(t) for t in c.get('script', [])]
     if 'labels_asked' in c:
         from flipjump.interpreter.debugging.breakpoints import get_breakpoint_handler
         from flipjump.utils.functions import save_debugging_labels
